@@ -19,6 +19,7 @@
 // ">s" frames received by the server, then (STEP) "=c:.." "=s:.." the relay's
 // send-side windows toward that endpoint, or "ERR" when the relay stopped.
 // received frames: d:<sid>:<es>:<data>  h:<sid>:<es>:<prio|->:<fid>:<len+len..>
+// (h and u end with :<tab> = dynamic table size last signalled in-band by the sender's encoder)
 // u:<sid>:<promised>:<fid>:<lens>  p:<sid>:<prio>  r:<sid>:<code>  s:<kv>  a
 // g:<ack>:<hex>  y:<last>:<code>:<hex>  w:<sid>:<inc>  ?:<what>
 // fid of a received block = index of the field list the RECEIVER's own HPACK
@@ -95,6 +96,62 @@ type Endpoint struct {
 	wbuf      bytes.Buffer
 	fr        *http2.Framer
 	nblocksRx int
+	// HPACK table size negotiation, as an RFC 7540 endpoint does it:
+	// annTab: per SETTINGS frame this endpoint sent, the HEADER_TABLE_SIZE values in it;
+	// acksRx: SETTINGS ACKs received.  The decoder allows the size in force (acknowledged)
+	// or any size announced and not yet acknowledged.
+	annTab [][]uint32
+	acksRx int
+	// pendRx: per SETTINGS frame received, its HEADER_TABLE_SIZE values; applied to this
+	// endpoint's encoder when it sends the corresponding ACK.
+	pendRx [][]uint32
+	// sigTab: dynamic table size last signalled in-band by the peer's encoder.
+	sigTab uint32
+}
+
+// tabBound mirrors Spec.tab_bound.
+func (e *Endpoint) tabBound() uint32 {
+	a := e.acksRx
+	if a > len(e.annTab) {
+		a = len(e.annTab)
+	}
+	cur := uint32(4096)
+	for _, vs := range e.annTab[:a] {
+		for _, v := range vs {
+			cur = v
+		}
+	}
+	for _, vs := range e.annTab[a:] {
+		for _, v := range vs {
+			if v > cur {
+				cur = v
+			}
+		}
+	}
+	return cur
+}
+
+// sizeUpdates returns the last dynamic table size update at the start of a block (ok=false: none).
+func sizeUpdates(b []byte) (last uint32, ok bool) {
+	i := 0
+	for i < len(b) && b[i]&0xe0 == 0x20 {
+		v := uint64(b[i] & 0x1f)
+		i++
+		if v == 31 {
+			shift := uint(0)
+			for i < len(b) {
+				c := b[i]
+				i++
+				v += uint64(c&0x7f) << shift
+				shift += 7
+				if c&0x80 == 0 {
+					break
+				}
+			}
+		}
+		last, ok = uint32(v), true
+	}
+	return
 }
 
 func NewEndpoint() *Endpoint {
@@ -103,6 +160,7 @@ func NewEndpoint() *Endpoint {
 	e.dec = hpack.NewDecoder(4096, nil)
 	e.fr = http2.NewFramer(&e.wbuf, nil)
 	e.fr.AllowIllegalWrites = true
+	e.sigTab = 4096
 	return e
 }
 
@@ -285,8 +343,23 @@ func (e *Endpoint) Frame(tok string) (raw []byte, open bool, ok bool) {
 			}
 		}
 		fr.WriteSettings(ss...)
+		var tv []uint32
+		for _, x := range ss {
+			if x.ID == http2.SettingHeaderTableSize {
+				tv = append(tv, x.Val)
+			}
+		}
+		e.annTab = append(e.annTab, tv)
+		e.dec.SetAllowedMaxDynamicTableSize(e.tabBound())
 	case 'A':
 		fr.WriteSettingsAck()
+		// the settings acknowledged take effect for this endpoint's encoder now
+		if len(e.pendRx) > 0 {
+			for _, v := range e.pendRx[0] {
+				e.enc.SetMaxDynamicTableSize(v)
+			}
+			e.pendRx = e.pendRx[1:]
+		}
 	case 'G':
 		var d [8]byte
 		copy(d[:], hx.MustUnHex(f[1]))
@@ -311,13 +384,16 @@ func kvTok(f *http2.SettingsFrame) string {
 }
 
 func (e *Endpoint) closeBlock() string {
+	if v, ok := sizeUpdates(e.openFrag); ok {
+		e.sigTab = v
+	}
 	fs, err := e.dec.DecodeFull(e.openFrag)
 	fid := 999
 	if err == nil {
 		fid = fidOf(fs)
 	}
 	e.open = false
-	return fmt.Sprintf("%s:%d:%s", e.openTok, fid, strings.Join(e.openLens, "+"))
+	return fmt.Sprintf("%s:%d:%s:%d", e.openTok, fid, strings.Join(e.openLens, "+"), e.sigTab)
 }
 
 // Receive turns one frame read by this endpoint into at most one token.
@@ -374,8 +450,18 @@ func (e *Endpoint) Receive(f http2.Frame) (string, bool) {
 		return fmt.Sprintf("r:%d:%d", f.StreamID, uint32(f.ErrCode)), true
 	case *http2.SettingsFrame:
 		if f.IsAck() {
+			e.acksRx++
+			e.dec.SetAllowedMaxDynamicTableSize(e.tabBound())
 			return "a", true
 		}
+		var tv []uint32
+		f.ForeachSetting(func(x http2.Setting) error {
+			if x.ID == http2.SettingHeaderTableSize {
+				tv = append(tv, x.Val)
+			}
+			return nil
+		})
+		e.pendRx = append(e.pendRx, tv)
 		return "s:" + kvTok(f), true
 	case *http2.PingFrame:
 		return fmt.Sprintf("g:%d:%s", b2i(f.IsAck()), hx.Hex(f.Data[:])), true
